@@ -19,7 +19,7 @@ def _self_test(chk, drv, size_path):
     (a Mary transaction in canonical encoding, fee exactly the minimum / limit
     exactly the length) and require the replay to report both."""
     rows = vlib.read_ndjson(size_path)
-    picks = []
+    picks, origs = [], []
     for r in rows:
         if (r["era"] == "mary" and r["hd"] == "min" and r["pad"] == 0 and r["a"] == 1
                 and r["fee"] == r["minfee"] and r["max"] == r["orig"]):
@@ -28,24 +28,33 @@ def _self_test(chk, drv, size_path):
             q = dict(r)
             q["feeVerdict"], q["sizeVerdict"] = "tooSmall", "tooBig"
             picks.append(q)
+            origs.append(r)
             break
     if not picks:
         raise vlib.MachineryError("self-test: reference case (mary, canonical, a=1, fee=minfee, max=orig) not in the TLC output")
     d = vlib.scratch("c30-self-")
-    p = os.path.join(d, "flipped.ndjson")
-    vlib.write_ndjson(p, picks)
-    probe = vlib.Check(chk.pid, chk.tier, chk.seed)
-    vlib.run_driver(probe, drv, ["size", "all", p], timeout=120)
-    keys = [k for k, _, _ in probe.violations] + [k for _, k, _ in probe.known_hits]
-    for _, _, path in probe.violations:      # the probe must not leave replay files behind
-        if path and os.path.exists(path):
-            os.remove(path)
     b = picks[0]["b"]
     want = {"fee:era=mary:env=3:hd=min:pad=0:a=1:b=%d:fee=mf+0:at=feerule" % b,
             "max:era=mary:env=3:hd=min:pad=0:max=orig+0:at=maxrule"}
-    if not want <= set(keys):
-        raise vlib.MachineryError("self-test: flipped verdicts were not reported (got %r)" % keys)
-    chk.extra["binding_self_test"] = "flipped verdicts of (mary, canonical, fee = minimum, limit = length) were rejected: %s" % sorted(want)
+    reported = []
+    for name, rows_ in (("orig", origs), ("flipped", picks)):
+        p = os.path.join(d, name + ".ndjson")
+        vlib.write_ndjson(p, rows_)
+        probe = vlib.Check(chk.pid, chk.tier, chk.seed)
+        vlib.run_driver(probe, drv, ["size", "all", p], timeout=120)
+        reported.append(set([k for k, _, _ in probe.violations] + [k for _, k, _ in probe.known_hits]))
+        for _, _, path in probe.violations:      # the probe must not leave replay files behind
+            if path and os.path.exists(path):
+                os.remove(path)
+    # flipping the expected verdict must flip whether the case is reported (if the
+    # code is wrong on the reference case the unflipped row is reported instead,
+    # and the main run below reports it as well)
+    bad = [k for k in sorted(want) if (k in reported[0]) == (k in reported[1])]
+    if bad:
+        raise vlib.MachineryError("self-test: flipping the verdict did not change the report for %r (orig %r, flipped %r)"
+                                  % (bad, sorted(reported[0]), sorted(reported[1])))
+    chk.extra["binding_self_test"] = ("flipping the verdicts of (mary, canonical, fee = minimum, limit = length) flips the "
+                                      "report: %s" % sorted(want))
 
 
 def run(chk, replay=None):
